@@ -275,6 +275,15 @@ func (m *manager) OnChannelCompleted(chid datatransfer.ChannelID, completeErr er
 	}
 
 	// otherwise, process as responder
+
+	// a channel that has already failed or been cancelled (for instance because an earlier
+	// transport request of a restarted channel reported an error) must not tell the
+	// initiator that the transfer completed
+	if st := chst.Status(); st == datatransfer.Failing || st == datatransfer.Failed ||
+		st == datatransfer.Cancelling || st == datatransfer.Cancelled {
+		log.Infow("received OnChannelCompleted for a channel that is not completing, ignoring", "chid", chid, "status", st)
+		return nil
+	}
 	log.Infow("received OnChannelCompleted, will send completion message to initiator", "chid", chid)
 
 	// generate and send the final status message
